@@ -1,5 +1,5 @@
 // auto-generated: "lalrpop 0.23.1"
-// sha3: ef96d07f8daa07de632367a7c3a400b71048f7027820a14a0e08481ceb29409f
+// sha3: 688805397e0b9517618a03a539a15d2edb0a0caf1bcc94e5e29af7f979809932
 #[allow(unused_extern_crates)]
 extern crate lalrpop_util as __lalrpop_util;
 #[allow(unused_imports)]
@@ -641,7 +641,7 @@ fn __action1<
     (_, __0, _): (usize, &'input str, usize),
 ) -> String
 {
-    { fn f<'a>(x: &'a str) -> &'a str { x } f("q").to_string() }
+    { let r#type = [1, 2, 3]; r#type[(0 + 1)].to_string() }
 }
 
 #[allow(unused_variables)]
@@ -653,7 +653,7 @@ fn __action2<
     (_, __0, _): (usize, &'input str, usize),
 ) -> String
 {
-    '}'.to_string()
+    { fn f<'a>(x: &'a str) -> &'a str { x } f("q").to_string() }
 }
 
 #[allow(unused_variables)]
@@ -665,7 +665,7 @@ fn __action3<
     (_, __0, _): (usize, &'input str, usize),
 ) -> String
 {
-    r"{}aa(".to_string()
+    "/* ,'\u{7d}".to_string()
 }
 
 #[allow(unused_variables)]
@@ -677,7 +677,8 @@ fn __action4<
     (_, __0, _): (usize, &'input str, usize),
 ) -> String
 {
-    r#"#"z"#.to_string()
+    { /* } , ; */ let v = vec![(1, 2), (3, 4)]; // }
+ v[1].0.to_string() }
 }
 
 #[allow(unused_variables)]
@@ -689,7 +690,7 @@ fn __action5<
     (_, __0, _): (usize, &'input str, usize),
 ) -> String
 {
-    r#""#.to_string()
+    { fn f<'a>(x: &'a str) -> &'a str { x } f("q").to_string() }
 }
 
 #[allow(unused_variables)]
@@ -701,7 +702,7 @@ fn __action6<
     (_, __0, _): (usize, &'input str, usize),
 ) -> String
 {
-    "}[}(\u{7d}".to_string()
+    r#"/*,',"#.to_string()
 }
 
 #[allow(unused_variables)]
@@ -713,7 +714,7 @@ fn __action7<
     (_, __0, _): (usize, &'input str, usize),
 ) -> String
 {
-    r##"(}/*"##.to_string()
+    { fn f<'a>(x: &'a str) -> &'a str { x } f("q").to_string() }
 }
 
 #[allow(unused_variables)]
@@ -725,7 +726,7 @@ fn __action8<
     (_, __0, _): (usize, &'input str, usize),
 ) -> String
 {
-    format!("{}{}", '\u{7d}'.to_string(), r###"},"###.to_string())
+    { let r = 7; let t = (r, 1); /* /* nested , */ ; */ (t.0 / t.1).to_string() }
 }
 
 #[allow(clippy::type_complexity, dead_code)]
